@@ -229,6 +229,15 @@ static std::vector<CompDef> build_components()
       "linearCombination {\n@OPTS@distanceVec {\nname s1\ncomponentCoeff 1.5\ngroup1 {\n@G0@}\ngroup2 {\n@G1@}\n}\n"
       "distanceVec {\nname s2\ncomponentCoeff -0.5\ngroup1 {\n@G2@}\ngroup2 {\n@G3@}\n}\n}\n",
       {A, B, {1, 7}, {8}}, true, true);
+  // components that accumulate their gradients while computing the value, nested
+  add("linearCombination/coordNum+distance", T_SCALAR,
+      "linearCombination {\n@OPTS@coordNum {\nname s1\ncomponentCoeff 1.0\ncutoff 3.5\ngroup1 {\n@G0@}\ngroup2 {\n@G1@}\n}\n"
+      "distance {\nname s2\ncomponentCoeff 0.5\ngroup1 {\n@G2@}\ngroup2 {\n@G3@}\n}\n}\n",
+      {A, B, {1, 7}, {8}}, true, true);
+  add("linearCombination/selfCoordNum+distance", T_SCALAR,
+      "linearCombination {\n@OPTS@selfCoordNum {\nname s1\ncomponentCoeff 1.0\ncutoff 3.2\ngroup1 {\n@G0@}\n}\n"
+      "distance {\nname s2\ncomponentCoeff 0.5\ngroup1 {\n@G1@}\ngroup2 {\n@G2@}\n}\n}\n",
+      {A4, {5, 6, 7}, {8}}, true, false);
   add("neuralNetwork", T_SCALAR,
       "neuralNetwork {\n@OPTS@output_component 0\nlayer1_WeightsFile c01_nn_w1.txt\nlayer1_BiasesFile c01_nn_b1.txt\nlayer1_activation tanh\n"
       "layer2_WeightsFile c01_nn_w2.txt\nlayer2_BiasesFile c01_nn_b2.txt\nlayer2_activation linear\n" + sub + "}\n",
